@@ -68,6 +68,8 @@ StepRules(st, cache) ==
                     /\ (st.op = "Cancel" => st.ret = "nil"))
         THEN {} ELSE {"C02.final"})
   \cup (IF \A i \in 1..k : p[i].status \in Terminal => FALSE THEN {} ELSE {"C02.noWriteAfterTerminal"})
+  (* what a QUERY of a terminal channel returns after the operation is still what its (unchanged) record says: no accessor moves *)
+  \cup (IF term => ViewMatches(st.postView, pre) THEN {} ELSE {"C02.viewFinal"})
   (* ---- C03 ---- *)
   \cup (IF \A i \in Pairs : (ev[i] \in BookkeepingEvents /\ ~(ev[i] = "ResumeResponder" /\ p[i].status = "Finalizing"))
                               => p[i+1].status = p[i].status
